@@ -127,7 +127,7 @@ def _valid_block(ex, st, block, n):
     """0 <= rb < re <= n, 0 <= cb < ce <= n  (the quantifier of C06)."""
     if isinstance(block, Opt):
         return z3.Or(zbool(block.isnone), _valid_block(ex, st, block.v, n))
-    if block is None:
+    if block is None or (is_cint(block) and block == 0):
         return True
     rb, re, cb, ce, triu = block_parts(ex, block, n)
     n = zint(n)
@@ -154,7 +154,7 @@ spec('Sel', z3=_sel, py=lambda ex, st, block, n, r, c: (r, c) in py_pairs(block,
 spec('CBrow', z3=_cbrow, py=lambda ex, st, block, n, r: max(r + 1, py_block_parts(block, n)[2]) if py_block_parts(block, n)[4] else py_block_parts(block, n)[2],
      doc='first selected column of row r')
 spec('ValidBlock', z3=_valid_block,
-     py=lambda ex, st, block, n: block is None or (0 <= block[0][0] < block[0][1] <= n and 0 <= block[1][0] < block[1][1] <= n))
+     py=lambda ex, st, block, n: block is None or (is_cint(block) and block == 0) or (0 <= block[0][0] < block[0][1] <= n and 0 <= block[1][0] < block[1][1] <= n))
 spec('Triu', z3=_triu_flag, py=lambda ex, st, block, n: py_block_parts(block, n)[4])
 spec('LenFull', z3=_lenfull, py=lambda ex, st, n: n * (n - 1) // 2,
      doc='n(n-1)/2, the advertised length without a block')
